@@ -1,9 +1,10 @@
 /-
   C15 — unfill inverts fill and recovers indents, width and line ending.
-  This file: the structural half (all strings). The round trip with `fill` is decided by the
-  oracle on every generated case (see the claim text); its Lean proof is not part of this file.
+  The structural half (all strings) and the round trip with `fill`.
 -/
 import Lemmas.Unfill
+import Lemmas.FillShape
+import Props.C09
 namespace TW.C15
 
 /-- **the two line iterators agree** (guard of issue #466) -/
@@ -146,5 +147,194 @@ theorem unfill_total (cw : Char → Nat) (t : Text) : ∃ u, unfill cw t = some 
 /-! sanity (tests, labelled as such): the upstream block-quote example -/
 example : (unfill (fun _ => 1) "> foo\n> bar\n".toList).map (fun u => (String.ofList u.text, String.ofList u.initialIndent, String.ofList u.subsequentIndent, u.width)) =
     some ("foo bar\n", "> ", "> ", 5) := by decide
+
+/-! ### the round trip with `fill` -/
+
+section
+variable {α : Type} [CostNum α]
+
+theorem para_chars (ws : List Text) (hws : ∀ w ∈ ws, WordOk w) :
+    LF ∉ joinWith [SP] ws ∧ CR ∉ joinWith [SP] ws := by
+  constructor <;> intro h
+  · rcases joinWith_sub _ _ _ h with h | ⟨w, hw, hc⟩
+    · exact absurd h (by decide)
+    · exact (hws w hw).2.2.1 hc
+  · rcases joinWith_sub _ _ _ h with h | ⟨w, hw, hc⟩
+    · exact absurd h (by decide)
+    · exact (hws w hw).2.2.2 hc
+
+theorem para_bodyOk (ws : List Text) (hne : ws ≠ []) (hws : ∀ w ∈ ws, WordOk w) :
+    BodyOk (joinWith [SP] ws) := by
+  obtain ⟨h1, h2⟩ := para_chars ws hws
+  refine ⟨?_, h1, h2⟩
+  cases ws with
+  | nil => exact absurd rfl hne
+  | cons w r =>
+    obtain ⟨⟨c, t, rfl, hc⟩, _⟩ := hws w (by simp)
+    exact ⟨c, _, joinWith_cons_head _ _ _ _, hc⟩
+
+theorem para_no_trailing_sp (ws : List Text) (hne : ws ≠ []) (hws : ∀ w ∈ ws, WordOk w) :
+    (joinWith [SP] ws).getLast? ≠ some SP := by
+  cases hl : ws.getLast? with
+  | none => exact absurd (List.getLast?_eq_none_iff.mp hl) hne
+  | some l =>
+    have hlm := List.mem_of_getLast? hl
+    rw [joinWith_getLast _ _ l hl (hws l hlm).ne_nil]
+    exact getLast_ne_SP l (hws l hlm).2.1
+
+/-- **the shape of `wrap` on a paragraph of single-spaced words** (ASCII separator, no split
+    point inside a word, `break_words` off, either algorithm): the first line is the initial
+    indent followed by a body, every later line the subsequent indent followed by a body; bodies
+    begin with the first character of a word, contain no line break characters, and joined by
+    single spaces they are the paragraph. -/
+-- @audit TW.C15.wrap_shape
+theorem wrap_shape (env : Env) (mo : MinimaOracle α) (hmo : MoShape mo) (o : Opts)
+    (hsep : o.sep = .ascii) (hbw : o.breakWords = false)
+    (ws : List Text) (hne : ws ≠ []) (hws : ∀ w ∈ ws, WordOk w)
+    (hpts : ∀ w ∈ ws, o.splitter.points env.isAlnum w = [])
+    (ls : List Text) (h : wrap env mo o (joinWith [SP] ws) = some ls) :
+    ∃ s0 ss, ls = (o.initialIndent ++ s0) :: ss.map (o.subsequentIndent ++ ·) ∧
+      BodyOk s0 ∧ (∀ s ∈ ss, BodyOk s) ∧ joinWith [SP] (s0 :: ss) = joinWith [SP] ws := by
+  obtain ⟨hlf, _⟩ := para_chars ws hws
+  have hsplit : splitEnding o.lineEnding (joinWith [SP] ws) = [joinWith [SP] ws] := by
+    cases o.lineEnding with
+    | lf => exact C09.splitLF_noLF _ hlf
+    | crlf => exact C09.splitCRLF_noLF _ hlf
+  unfold wrap wrapD at h
+  rw [hsplit] at h
+  simp only [wrapParas] at h
+  cases hd : wrapSingleLine env mo o (joinWith [SP] ws) 0 with
+  | none => simp [hd] at h
+  | some ds =>
+    simp only [hd, Option.map_some, Option.some.injEq, List.append_nil, List.map_map] at h
+    have hls : ls = ds.map LineD.render := by
+      rw [← h]; apply List.map_congr_left; intro d _; rfl
+    clear h
+    unfold wrapSingleLine at hd
+    by_cases hc : blen (joinWith [SP] ws) < o.width ∧
+        (if (0 : Nat) = 0 then o.initialIndent else o.subsequentIndent).isEmpty = true
+    · -- the shortcut: one line, the paragraph itself
+      rw [if_pos hc] at hd
+      simp only [Option.some.injEq] at hd
+      have hii : o.initialIndent = [] := by simpa using hc.2
+      refine ⟨joinWith [SP] ws, [], ?_, para_bodyOk ws hne hws, by simp, by simp [joinWith]⟩
+      rw [hls, ← hd, hii]
+      simp [LineD.render, trimEndSp_id' _ (para_no_trailing_sp ws hne hws)]
+    · rw [if_neg hc] at hd
+      unfold wrapSingleLineSlow at hd
+      simp only [pipeline_words env o hsep hbw ws hne hws hpts] at hd
+      split at hd
+      · simp at hd
+      · next G hg =>
+        obtain ⟨p1, p2, p3, _⟩ := wrapAlg_partition mo hmo o.alg _ _ G hg
+        have hWne : mkWords env.cw ws ≠ [] := by
+          cases ws with
+          | nil => exact absurd rfl hne
+          | cons a r => cases r <;> simp [mkWords]
+        have hgne := p3 hWne
+        rw [reassemble_eq_spec o _ [] G 0 0 (by simp [p1, wordsText_mkWords]) rfl] at hd
+        simp only [Option.some.injEq] at hd
+        have hsub : ∀ g ∈ G, ∀ W ∈ g, W ∈ mkWords env.cw ws := by
+          intro g hgG W hW; rw [← p1]; exact List.mem_flatten.mpr ⟨g, hgG, hW⟩
+        have hrender := specLines_render o G 0 0
+          (fun g hgG => group_pen_nil env.cw ws g (hsub g hgG))
+        rw [hd] at hrender
+        cases G with
+        | nil => exact absurd rfl p2
+        | cons g0 r =>
+          refine ⟨groupSlice g0, r.map groupSlice, ?_, ?_, ?_, ?_⟩
+          · rw [hls, hrender]
+            simp [renderLines, renderLines_succ, List.map_map, Function.comp_def]
+          · exact groupSlice_bodyOk env.cw ws hws g0 (hgne g0 (by simp)) (hsub g0 (by simp))
+          · intro s hs
+            obtain ⟨g, hgr, rfl⟩ := List.mem_map.mp hs
+            exact groupSlice_bodyOk env.cw ws hws g (hgne g (by simp [hgr])) (hsub g (by simp [hgr]))
+          · have := join_groupSlices (g0 :: r) (by simp) hgne (by rw [p1]; exact spacedL_mkWords env.cw ws)
+            rw [p1, wordsText_mkWords] at this
+            simpa using this
+
+/-- `maxWidth` is the display width of the widest line -/
+-- @audit TW.C15.maxWidth_spec
+theorem maxWidth_spec (cw : Char → Nat) (ls : List Text) :
+    (∀ l ∈ ls, displayWidth cw l ≤ maxWidth cw 0 ls) ∧
+    (ls ≠ [] → ∃ l ∈ ls, displayWidth cw l = maxWidth cw 0 ls) := by
+  have key : ∀ (ls : List Text) (w : Nat),
+      w ≤ maxWidth cw w ls ∧ (∀ l ∈ ls, displayWidth cw l ≤ maxWidth cw w ls) ∧
+      (maxWidth cw w ls = w ∨ ∃ l ∈ ls, displayWidth cw l = maxWidth cw w ls) := by
+    intro ls
+    induction ls with
+    | nil => intro w; simp [maxWidth]
+    | cons a r ih =>
+      intro w
+      obtain ⟨h1, h2, h3⟩ := ih (max w (displayWidth cw a))
+      have e : maxWidth cw w (a :: r) = maxWidth cw (max w (displayWidth cw a)) r := rfl
+      rw [e]
+      refine ⟨by omega, ?_, ?_⟩
+      · intro l hl
+        rcases List.mem_cons.mp hl with rfl | hl
+        · omega
+        · exact h2 l hl
+      · rcases h3 with h3 | ⟨l, hl, h3⟩
+        · by_cases hw : displayWidth cw a ≤ w
+          · left; rw [h3]; omega
+          · right; exact ⟨a, by simp, by rw [h3]; omega⟩
+        · right; exact ⟨l, by simp [hl], h3⟩
+  obtain ⟨_, h2, h3⟩ := key ls 0
+  refine ⟨h2, ?_⟩
+  intro hne
+  rcases h3 with h3 | h3
+  · cases ls with
+    | nil => exact absurd rfl hne
+    | cons a r => exact ⟨a, by simp, by have := h2 a (by simp); omega⟩
+  · exact h3
+
+/-- **`unfill` inverts `fill`**: for a paragraph of single-spaced words that do not begin with
+    prefix characters, filled with indents made of prefix characters, either algorithm, either
+    line ending, breaks at spaces only (ASCII separator, no split point inside a word,
+    `break_words` off), `unfill` returns the paragraph, the initial indent, the width of the
+    widest line, and — when there are at least two lines — the subsequent indent and the line
+    ending. With a trailing line ending appended to the filled text the ending is returned too
+    and the line ending is detected from it. -/
+-- @audit TW.C15.unfill_fill
+theorem unfill_fill (env : Env) (mo : MinimaOracle α) (hmo : MoShape mo) (o : Opts)
+    (hsep : o.sep = .ascii) (hbw : o.breakWords = false)
+    (hii : o.initialIndent.all isPrefixChar = true) (hsi : o.subsequentIndent.all isPrefixChar = true)
+    (ws : List Text) (hne : ws ≠ []) (hws : ∀ w ∈ ws, WordOk w)
+    (hpts : ∀ w ∈ ws, o.splitter.points env.isAlnum w = [])
+    (filled : Text) (hf : fill env mo o (joinWith [SP] ws) = some filled) :
+    ∃ ls, wrap env mo o (joinWith [SP] ws) = some ls ∧ filled = joinWith o.lineEnding.str ls ∧
+      unfill env.cw filled = some
+        { text := joinWith [SP] ws, width := maxWidth env.cw 0 ls, initialIndent := o.initialIndent,
+          subsequentIndent := if ls.length ≤ 1 then [] else o.subsequentIndent,
+          lineEnding := if ls.length ≤ 1 then .lf else o.lineEnding } ∧
+      unfill env.cw (filled ++ o.lineEnding.str) = some
+        { text := joinWith [SP] ws ++ o.lineEnding.str, width := maxWidth env.cw 0 ls,
+          initialIndent := o.initialIndent,
+          subsequentIndent := if ls.length ≤ 1 then [] else o.subsequentIndent,
+          lineEnding := o.lineEnding } := by
+  rw [C09.fill_eq_join] at hf
+  cases hw : wrap env mo o (joinWith [SP] ws) with
+  | none => simp [hw] at hf
+  | some ls =>
+    simp only [hw, Option.map_some, Option.some.injEq] at hf
+    obtain ⟨s0, ss, e1, b0, bs, ej⟩ := wrap_shape env mo hmo o hsep hbw ws hne hws hpts ls hw
+    refine ⟨ls, rfl, hf.symm, ?_, ?_⟩
+    · rw [← hf, e1, unfill_lines env.cw o.lineEnding _ _ s0 ss hii hsi b0 bs, ej]
+      have : ((o.initialIndent ++ s0) :: ss.map (o.subsequentIndent ++ ·)).length ≤ 1 ↔ ss = [] := by
+        cases ss <;> simp
+      simp only [this]
+    · rw [← hf, e1, unfill_lines_trailing env.cw o.lineEnding _ _ s0 ss hii hsi b0 bs, ej]
+      have : ((o.initialIndent ++ s0) :: ss.map (o.subsequentIndent ++ ·)).length ≤ 1 ↔ ss = [] := by
+        cases ss <;> simp
+      simp only [this]
+
+end
+
+/-! the hypotheses are satisfiable (tests, labelled as such) -/
+example : WordOk "foo".toList ∧ WordOk "x-y".toList ∧ WordOk "é1".toList :=
+  ⟨⟨⟨'f', "oo".toList, rfl, by decide⟩, by decide, by decide, by decide⟩,
+   ⟨⟨'x', "-y".toList, rfl, by decide⟩, by decide, by decide, by decide⟩,
+   ⟨⟨'é', "1".toList, rfl, by decide⟩, by decide, by decide, by decide⟩⟩
+example : ("> ".toList).all isPrefixChar = true ∧ ("  * ".toList).all isPrefixChar = true := by decide
 
 end TW.C15
